@@ -80,6 +80,7 @@ func C14(ctx *core.Ctx, r *core.Report) {
 	e := newCrashEngine(ctx, r, roots, c14OutOfScope)
 	sites := e.sites("K1 K2 K4")
 	e.record("crash", sites, c14Triage)
+	parallelIndex(ctx, r, e.reach, c14OutOfScope, c14ParallelTriage, 1)
 	c14ModuleXorError(ctx, r)
 	c14GuardBacking(ctx, r)
 	c14Recursion(ctx, r, roots)
@@ -337,3 +338,5 @@ var c14Cycles = map[string]string{
 	"meta.resolver.module": "guarded by resolver.loadedModules: an import of a module that is already loaded reuses it instead of recursing",
 	"parser.lexer.acceptString ↔ parser.lexer.acceptToken": "consumes input: each round accepts a non-empty string token or stops",
 }
+
+var c14ParallelTriage = map[string]string{}
